@@ -371,7 +371,7 @@ def run_cfg(ctx, p, cfg):
         r.require(any(x[0] == "call" and x[1] == "std::io::Write::write_all" for x in walk(ret)), "write-result-returned", fn=f, detail="set_style returns the write's result")
 
     with ctx.rule("X7", "highlight pairing", cfg) as r:
-        f = p.fn(FENCODE)
+        f = p.fn_loops(FENCODE)
         ss = [c for c in f.calls("encode::Write::set_style")]
         top = None
         for blk in f.blocks:
@@ -390,7 +390,13 @@ def run_cfg(ctx, p, cfg):
             region -= f.reach(o, include_src=True)
         hs = [c for c in ss if c.block in region]
         enc = [c for c in f.calls("encode::pattern::Chunk::encode") if c.block in region]
-        r.require(len(enc) == 1, "children-encoded-once", fn=f, detail="Chunk::encode sites on the Highlight arm: %d" % len(enc))
+        # once on every path: no children loop can follow another, and no non-error return of the arm is reached without one
+        NEXT_ = "core::iter::traits::iterator::Iterator::next"
+        steps = {n.block for n in f.calls(NEXT_) if n.block in region and any(f.can_reach(n.block, e_.block) and f.can_reach(e_.block, n.block) for e_ in enc)}
+        twice = [(a_, b_) for a_ in steps for b_ in steps if a_ != b_ and f.can_reach(a_, b_) and not f.can_reach(b_, a_)]
+        rets_ = {b for b, e in q.ret_assignments(f) if q.classify_ret(e) != "err" and not q.is_from_residual(e)} & region
+        missed = q.skipping_paths(f, ht, steps, rets_) if steps else rets_
+        r.require(bool(enc) and not twice and not missed, "children-encoded-once", fn=f, detail="Chunk::encode sites on the Highlight arm: %d, one on every path" % len(enc))
         before, after = {}, {}
 
         def level_labels(block):
@@ -472,16 +478,40 @@ def run_cfg(ctx, p, cfg):
                         return None
                     out |= lv
             return out
+        ALL_LEVELS = {"Error", "Warn", "Info", "Debug", "Trace"}
+
+        def levels_via_comparison(si, al):
+            """`if level != Level::Debug { reset }`: the levels for which the comparison sends control along this edge"""
+            labs = {si.label(v) for v, _ in al}
+            if not si.is_bool or labs not in ({True}, {False}):
+                return None
+            nf = cmp_nf(si.discr, True)
+            if not nf or nf[0] not in ("Eq", "Ne"):
+                return None
+            a, b = deep_strip(nf[1]), deep_strip(nf[2])
+            lvl = None
+            for x, y in ((a, b), (b, a)):
+                if any(z[0] == "call" and z[1] == "log::Record::<'a>::level" for z in walk(x)):
+                    if y[0] == "agg" and y[1] == "log::Level" and not y[3]:
+                        lvl = y[2]
+                    elif y[0] == "const" and y[1] == "enum" and y[2] in ALL_LEVELS:
+                        lvl = y[2]
+            if lvl is None:
+                return None
+            same = (nf[0] == "Eq") == (True in labs)
+            return {lvl} if same else ALL_LEVELS - {lvl}
         for c in hs:
             levels = level_labels(c.block) or set()
             for sb, si, al in f.conditions(c.block):
                 lv = levels_via_option(si, al)
                 if lv is None:
                     lv = levels_via_flag(si, al)
+                if lv is None:
+                    lv = levels_via_comparison(si, al)
                 if lv is not None:
                     levels = (levels & lv) if levels else lv
             is_reset = _is_plain_style(c.arg(1), f)
-            pre = enc and f.can_reach(c.block, enc[0].block)
+            pre = enc and any(f.can_reach(c.block, e_.block) for e_ in enc)
             (before if pre else after)[c.block] = (frozenset(str(x) for x in levels), is_reset)
         set_levels = set().union(*[lv for lv, rs in before.values() if not rs]) if before else set()
         reset_levels = set().union(*[lv for lv, rs in after.values() if rs]) if after else set()
